@@ -239,6 +239,37 @@ Definition crypto_of (f : qframe) : list (N * bytes) :=
 Definition cryptos (fs : list qframe) : list (N * bytes) := flat_map crypto_of fs.
 Definition enc_frames (fs : list qframe) : bytes := flat_map enc_qframe fs.
 
+(* ------------------------------------------------------------------ QUIC long header: session key and fingerprint *)
+(* What the control plane takes from a datagram that looks like a QUIC Initial (RFC 9000 17.2: flags,
+   4-byte version, DCID length, DCID, SCID length, SCID) - read structurally, touching only bytes
+   that are there.  The fingerprint (version, DCID, SCID) exists when both connection IDs are
+   complete and at most 20 bytes; the session key's DCID when it is complete, 1..20 bytes. *)
+Definition looks_initial (data : bytes) : bool :=
+  (7 <=? blen data)
+  && match data with f :: _ => ((f / 128) mod 2 =? 1) && ((f / 16) mod 4 =? 0) | [] => false end.
+Definition spec_fingerprint (data : bytes) : option (bytes * bytes * bytes) :=
+  if negb (looks_initial data) then None else
+  match data with
+  | _ :: v1 :: v2 :: v3 :: v4 :: dl :: rest =>
+      if 20 <? dl then None else
+      match skipn (N.to_nat dl) rest with
+      | sl :: rest2 =>
+          if blen rest <? dl + 1 then None else
+          if 20 <? sl then None else
+          if blen rest2 <? sl then None else
+          Some ([v1; v2; v3; v4], firstn (N.to_nat dl) rest, firstn (N.to_nat sl) rest2)
+      | [] => None
+      end
+  | _ => None
+  end.
+Definition spec_key_dcid (data : bytes) : option bytes :=
+  if negb (looks_initial data) then None else
+  match data with
+  | _ :: _ :: _ :: _ :: _ :: dl :: rest =>
+      if (0 <? dl) && (dl <=? 20) && (dl <=? blen rest) then Some (firstn (N.to_nat dl) rest) else None
+  | _ => None
+  end.
+
 (* ------------------------------------------------------------------ replay *)
 (* what the relay must receive: exactly the client's bytes, in order, each once *)
 Definition replay_spec (client_chunks : list bytes) : bytes := concat client_chunks.
